@@ -189,3 +189,18 @@ static int r_script(const int* ops, int nops, RStack& st, RStack& alt, uint64_t 
     if (nc != 0) return SCRIPT_ERR_UNBALANCED_CONDITIONAL;
     return E_OK;
 }
+
+// Symex-friendly stand-in for CScriptNum::serialize (used by the EvalScript harnesses through H(replace=...)): same result as the
+// reference encoder r_encode, but built with ONE allocation of constant size, so that the result's symbolic length does not change
+// the heap shape. Its equivalence with the real CScriptNum::serialize for every int64 value is the subject of harness scriptnum_encode.
+std::vector<unsigned char> verif_repl_serialize(const int64_t& value) asm("verif_repl_serialize");
+std::vector<unsigned char> verif_repl_serialize(const int64_t& value)
+{
+    const Item e = r_encode(value == INT64_MIN ? 0 : value);   // INT64_MIN is excluded by the contract of serialize (never produced from <=5-byte operands)
+    std::vector<unsigned char> r; r.reserve(9);
+    unsigned char* p = r.data();
+    for (int i = 0; i < MAXL; i++) if (i < e.len) p[i] = e.b[i];
+    struct Raw { unsigned char* start; unsigned char* finish; unsigned char* eos; };
+    reinterpret_cast<Raw*>(&r)->finish = p + e.len;
+    return r;
+}
